@@ -1,5 +1,7 @@
 import VaxisModel.Driver.Common
 import VaxisModel.Model.ParserIO
+import VaxisModel.Model.ParserReaderInterp
+import VaxisModel.Gen.ParserReader
 import VaxisModel.Spec.VT500
 
 /-! Driver for C02.  One line per stream:
@@ -157,7 +159,11 @@ def step (line : String) : String :=
   | ["run", hx, ch, cl] =>
     match hexBytes? hx, commaNats? ch, parseClusters cl with
     | some bytes, some sizes, some tbl =>
-      let items := runChunks genTable (lookupCl tbl) (splitChunks bytes sizes)
+      -- the regenerated table interpreted, and `readRune` / `print` interpreted from their regenerated bodies
+      -- (`Props.C02Text.reader_interpreted_eq_model`: = `runChunks`); a body that cannot be interpreted
+      -- (statement outside the vocabulary: `reader_skeleton_recognised` fails) falls back to the hand model
+      let items := (VaxisModel.Model.ParserReaderInterp.runChunksI VaxisModel.Gen.ParserReader.readRuneBody VaxisModel.Gen.ParserReader.printBody
+        genTable (lookupCl tbl) (splitChunks bytes sizes)).getD (runChunks genTable (lookupCl tbl) (splitChunks bytes sizes))
       let mc := " ".intercalate (items.map itemTok)
       s!"{mc}\t{impl}\t{verdict bytes impl}"
     | _, _, _ => "bad-op\tbad-op\tbad-op"
